@@ -856,11 +856,28 @@ impl<W, R, T> CompilationScope<'_, W, R, T> {
                         })
                         .multiunzip();
                 let param_len = param_specs.len();
-                let defaults = param_static_defaults
+                let defaults: Vec<_> = param_static_defaults
                     .into_iter()
                     .filter_map(|s| s.map(|s| self.compile(s)))
                     .collect::<Result<_, _>>()
                     .map_err(|e| e.trace(&input))?;
+                // as for named functions: a default value is supplied like an argument would be
+                let first_default = param_len - defaults.len();
+                for ((default, param_name), param_spec) in defaults
+                    .iter()
+                    .zip(param_names[first_default..].iter())
+                    .zip(param_specs[first_default..].iter())
+                {
+                    let default_type = self.type_of(default).map_err(|e| e.trace(&input))?;
+                    if param_spec.type_.bind_in_assignment(&default_type).is_none() {
+                        return Err(CompilationError::VariableTypeMismatch {
+                            variable_name: *param_name,
+                            expected_type: param_spec.type_.clone(),
+                            actual_type: default_type,
+                        }
+                        .trace(&input));
+                    }
+                }
                 let mut subscope = CompilationScope::from_parent_lambda(
                     self,
                     param_names
